@@ -20,6 +20,8 @@ Inductive vx :=
 | VApp (f : string) (a : vx)                (* f(a): operator, adjoint, proximal, gradient, projection result *)
 | VApp2 (f : string) (p a : vx)             (* op.derivative(p).adjoint(a) *)
 | VAdd (a b : vx) | VSub (a b : vx)         (* a + b, a - b *)
+| VMul (a b : vx) | VDiv (a b : vx)         (* entrywise a * b, a / b *)
+| VMaxc (c : sx) (a : vx)                   (* a.ufuncs.maximum(c) *)
 | VScal (c : sx) (a : vx)                   (* c * a *)
 | VLin (a : sx) (x : vx) (b : sx) (y : vx)  (* the value written by  out.lincomb(a, x, b, y) *)
 | VZero (space : string)                    (* space.zero() *)
@@ -31,3 +33,10 @@ Inductive stmt :=
 | Default (x : string) (s : stmt)   (* if x is None: s *)
 | Write (x : string) (e : vx)       (* in place: x[:] = e, x.assign(e), x += .., x.lincomb(..), op(.., out=x) *)
 | Callback (x : string).            (* callback(x) *)
+
+(* skeleton of the main loop body of the solvers that loop over a list of
+   operators: plain statements and inner loops  for i in range(len(ops))
+   whose bodies are per-index programs over indexed names ("duals[j]") *)
+Inductive ostmt :=
+| OStmt (s : stmt)
+| OFor (idx : string) (body : list stmt).
